@@ -47,6 +47,7 @@ OnlyFlap1 == last'.a = "Disconnect" => last'.args.s = 1                 \* only 
 \* what the replay adapter cannot do: a LinkEvent between Disconnect and ConnDown, or on the timer instant before the timer
 DownAtomic == ((dpend # {}) => last'.a = "ConnDown") /\ ((tphase = P) => last'.a = "Tick")
 EagerFlap1 == Eager /\ OnlyFlap1
+SimNext == Next /\ DownAtomic            \* (TLC's simulator does not apply ACTION_CONSTRAINTs)
 EagerFlap1Atomic == Eager /\ OnlyFlap1 /\ DownAtomic
 ExportAtomic     == DownAtomic /\ ExportT
 ExportEager      == Eager /\ DownAtomic /\ ExportT
